@@ -212,7 +212,7 @@ def check(chk: Check) -> None:
     wjobs = []
     for integ in ("generic", "rdflib"):
         for physical, logical in ((1, 3), (1, 13), (2, 4), (2, 14), (3, 4), (3, 114)):
-            for sizes in ((2, 1), (1, 0, 2), (3,)):
+            for sizes in ((2, 1), (1, 0, 2), (3,), (0, 2, 1), (0, 0, 1)):
                 for fs in (250, 1):
                     if integ == "rdflib" and physical == 3:
                         continue
@@ -234,6 +234,10 @@ def check(chk: Check) -> None:
                 chk.fail(rd, inst, construct, f"raises {p['raise']} at {p['site']}")
             elif p["errors"]:
                 chk.fail(rd, inst, construct, f"stream invalid: {p['errors'][:2]}")
+            elif jb["sizes"][0] == 0 and list(p["per_frame"]) == [0] + list(p["want"]) and p["rows"] and p["rows"][0] == ["options"]:
+                # the specific known defect: input sinks before the first non-empty one leave the pending options row
+                # to be flushed as a frame of its own
+                chk.fail(rd, inst, f"pyjelly.integrations.{jb['integ']}.serialize.grouped_stream_to_frames:leading-empty-sink", f"input sinks of sizes {list(jb['sizes'])}: the empty sink(s) before the first non-empty one produce a frame holding only the options row ({len(p['per_frame'])} frames for {len(p['want'])} non-empty sinks; a grouped reader sees an extra empty graph)")
             elif [n for n in p["per_frame"]] != p["want"]:
                 chk.fail(rd, inst, construct if not jb.get("dataset_of_graphs") else "pyjelly.integrations.rdflib.serialize.triples_stream_frames:one-frame-per-graph", f"statements per frame {p['per_frame']} for input sinks of sizes {list(jb['sizes'])} (expected one frame per non-empty sink: {p['want']}); rows {p['rows']}")
             else:
